@@ -212,8 +212,9 @@ func c16Doubles() []float64 {
 	return []float64{0, math.Copysign(0, -1), 1, nan1, nan2, math.Inf(1), math.Inf(-1), math.MaxFloat64, -math.MaxFloat64, 5e-324}
 }
 
-func c16Check(c *codec, s c16Shape) (string, string) {
-	b := s.build()
+func c16Check(c *codec, s c16Shape) (string, string) { return c16CheckBatch(c, s.build(), s) }
+
+func c16CheckBatch(c *codec, b *m3thrift.MetricBatch, s fmt.Stringer) (string, string) {
 	enc, err := c.encode(b)
 	if err != nil {
 		return "encode-error", fmt.Sprintf("[%s] %s: %v", c.kind, s, err)
@@ -347,6 +348,76 @@ func c16Jobs(tier string) []*SeqJob {
 		return guard(func() (string, string) { return c16Check(c, shapes[i]) })
 	}
 
+	// heterogeneous batches: every sequence of per-metric descriptors up to a depth (what one list element
+	// leaves behind in an encoder or decoder must not reach the next element)
+	type elem struct {
+		tags int // -1 nil
+		ty   m3thrift.MetricType
+	}
+	var elems []elem
+	for _, t := range []int{-1, 0, 1, 2, 16} {
+		for _, ty := range types {
+			elems = append(elems, elem{t, ty})
+		}
+	}
+	var halpha []string
+	for _, e := range elems {
+		halpha = append(halpha, fmt.Sprintf("metric(tags=%d,type=%d)", e.tags, int(e.ty)))
+	}
+	hdepth := tierInt(tier, 3, 4)
+	hbuild := func(hist []int, ncommon int) *m3thrift.MetricBatch {
+		b := &m3thrift.MetricBatch{CommonTags: mkTags(ncommon, 3, 0), Metrics: []m3thrift.Metric{}}
+		for i, op := range hist {
+			e := elems[op]
+			m := m3thrift.Metric{Name: mkStr(4+i, 0, i), Timestamp: int64(1000 + i), Tags: mkTags(e.tags, 2+i, 0)}
+			for j := range m.Tags {
+				m.Tags[j].Name += fmt.Sprint(i) // tags of different metrics differ
+			}
+			m.Value.MetricType = e.ty
+			switch e.ty {
+			case m3thrift.MetricType_COUNTER:
+				m.Value.Count = int64(i + 1)
+			case m3thrift.MetricType_TIMER:
+				m.Value.Timer = int64(-i - 1)
+			case m3thrift.MetricType_GAUGE:
+				m.Value.Gauge = float64(i) + 0.5
+			default:
+				m.Value.Count, m.Value.Timer, m.Value.Gauge = int64(i+1), int64(-i-1), 0.25
+			}
+			b.Metrics = append(b.Metrics, m)
+		}
+		return b
+	}
+	hexec := func(kind string, ncommon int) func(hist []int) (string, string, string, int) {
+		c := newCodec(kind) // one reused codec per configuration
+		return func(hist []int) (cl, det, key string, steps int) {
+			cl, det = guard(func() (string, string) {
+				return c16CheckBatch(c, hbuild(hist, ncommon), stringer(fmt.Sprintf("common=%d %v", ncommon, histLabels(halpha, hist))))
+			})
+			steps = len(hist) + 2
+			key = fmt.Sprint(kind, ncommon, hist)
+			return
+		}
+	}
+	hetero := &SeqJob{Property: "C16", Name: "heterogeneous-batches", Shards: 4}
+	hetero.Run = func(ctx *SeqCtx) {
+		for _, k := range kinds {
+			for _, nc := range []int{-1, 1} {
+				bfs(ctx, halpha, hdepth, hexec(k, nc))
+				if ctx.viol != nil {
+					ctx.viol.Ops = append([]string{k, fmt.Sprint(nc)}, ctx.viol.Ops...)
+					return
+				}
+			}
+		}
+	}
+	hetero.Replay = func(ops []string) (string, string) {
+		var nc int
+		fmt.Sscan(ops[1], &nc)
+		c, d, _, _ := hexec(ops[0], nc)(opIndex(halpha, ops[2:]))
+		return c, d
+	}
+
 	// reuse: every ordered pair / triple of a few base shapes through ONE codec, with an abandoned write in between
 	reuseShapes := []c16Shape{
 		{nMetrics: 0, nTags: -1, nCommon: -1, nameLen: 1, tagLen: 1, mtype: 1},
@@ -470,5 +541,9 @@ func c16Jobs(tier string) []*SeqJob {
 		fmt.Sscan(ops[4], &vi)
 		return guard(func() (string, string) { return ubCheck(ops[0], m3thrift.MetricType(ty), nl, nt, vi) })
 	}
-	return []*SeqJob{one, reuse, ub}
+	return []*SeqJob{one, hetero, reuse, ub}
 }
+
+type stringer string
+
+func (s stringer) String() string { return string(s) }
